@@ -2,7 +2,7 @@
 # usage: refbatch.sh <dir-with-Cxx/n/patch.diff> [parallel]  — developer tool: run every check on every
 # behaviour-preserving refactoring; any alarm is a false alarm of the machinery.
 D=$1; P=${2:-6}; R=$(mktemp -d /tmp/refres.XXXX)
-( cd $D; ls -d */* | while read d; do [ -f $d/patch.diff ] && echo $d; done ) > $R/list
+( cd $D; ls -d C*/* | while read d; do [ -f $d/patch.diff ] && echo $d; done ) > $R/list
 cat $R/list | xargs -P $P -I{} sh -c "/verif/tools/mutcheck.sh $D/{}/patch.diff all > $R/\$(echo {} | tr / -).txt 2>&1"
 cd $R; for f in C*.txt; do n=$(grep -c 'violations=0' $f); [ "$n" = 20 ] && echo "ok $f" && continue; echo "== $f: $n clean"; grep -E "^  (violated|undecided)|PATCH FAILED" $f | cut -c1-330; done
 rm -rf $R
